@@ -187,7 +187,18 @@ func genXML(t *kit.Tape, n int) ([]byte, []osm.ObjectID) {
 	var ids []osm.ObjectID
 	sb.WriteString("<?xml version=\"1.0\" encoding=\"UTF-8\"?>\n<osm version=\"0.6\" generator=\"verif\">\n")
 	id := int64(0)
+	// a few long runs of tokens that are not objects (comments, unknown elements, whitespace): a single Scan
+	// call then spans many reads, so a cancel can land deep inside it
+	junkAt := map[int]bool{}
+	for k := t.Draw(4); k > 0; k-- {
+		junkAt[t.Draw(n)] = true
+	}
 	for i := 0; i < n; i++ {
+		if junkAt[i] {
+			for k := 300 + t.Draw(500); k > 0; k-- {
+				sb.WriteString(" <!-- filler --><meta osm_base=\"2026-10-03T00:00:00Z\"/>\n")
+			}
+		}
 		id += 1 + int64(t.Draw(3))
 		switch t.Draw(3) {
 		case 0:
